@@ -353,13 +353,28 @@ fn collision_campaign(report: &mut Report, n: usize) {
 /// The file-based entry point inside one process: a decoy file is loaded first, then the real
 /// document through a path with `.` / `..` segments that lexically resembles the decoy's path;
 /// QUERY must still be the bytes of the file the path names.
-fn path_spelling_one(dir: &std::path::Path, schema_text: &str, schema_ext: &str, real: &str, relative: bool, spelled: &str) -> Option<String> {
+/// `fifo`: the requested file is a named pipe fed by a thread (what `<(...)` process substitution
+/// gives the CLI): its size as reported by the file system is 0, its content is the document.
+fn path_spelling_one(dir: &std::path::Path, schema_text: &str, schema_ext: &str, real: &str, relative: bool, spelled: &str, fifo: bool) -> Option<String> {
     use crate::e2::{run_history_fresh, History};
     let _ = std::fs::create_dir_all(dir.join("sub"));
     let decoy = format!("{}\n# decoy copy, never the requested file\n", real);
     let sp = dir.join(format!("schema.{}", schema_ext));
     std::fs::write(&sp, schema_text).unwrap();
-    std::fs::write(dir.join("q.graphql"), real).unwrap();
+    let qfile = dir.join("q.graphql");
+    let mut feeder = None;
+    if fifo && std::process::Command::new("mkfifo").arg(&qfile).status().map(|s| s.success()).unwrap_or(false) {
+        let (text, qp) = (real.to_string(), qfile.clone());
+        feeder = Some(std::thread::spawn(move || {
+            use std::io::Write;
+            // blocks until the library opens the pipe for reading
+            if let Ok(mut f) = std::fs::OpenOptions::new().write(true).open(&qp) {
+                let _ = f.write_all(text.as_bytes());
+            }
+        }));
+    } else {
+        std::fs::write(&qfile, real).unwrap();
+    }
     std::fs::write(dir.join("sub").join("q.graphql"), &decoy).unwrap();
     let (decoy_path, real_path, schema_path, cwd) = if relative {
         ("sub/q.graphql".to_string(), spelled.to_string(), format!("schema.{}", schema_ext), Some(dir.to_string_lossy().into_owned()))
@@ -379,6 +394,25 @@ fn path_spelling_one(dir: &std::path::Path, schema_text: &str, schema_ext: &str,
             other => Some(format!("generation failed for a valid document spelled {}: {}", real_path, other.short())),
         },
     };
+    if let Some(h) = feeder {
+        // release a feeder nobody read from: a non-blocking reader lets its open() return, and is drained
+        use std::io::Read;
+        use std::os::unix::fs::OpenOptionsExt;
+        let mut r = std::fs::OpenOptions::new().read(true).custom_flags(0o4000 /* O_NONBLOCK */).open(&qfile).ok();
+        let mut buf = [0u8; 65536];
+        for _ in 0..2000 {
+            if h.is_finished() {
+                break;
+            }
+            if let Some(f) = r.as_mut() {
+                let _ = f.read(&mut buf);
+            }
+            std::thread::sleep(std::time::Duration::from_millis(5));
+        }
+        if h.is_finished() {
+            let _ = h.join();
+        }
+    }
     let _ = std::fs::remove_dir_all(dir);
     verdict
 }
@@ -409,8 +443,9 @@ fn path_spelling_campaign(report: &mut Report, n: usize) {
                         _ => "sub/./../q.graphql",
                     };
                     let real_path = if relative { spelled.to_string() } else { dir.join(spelled).to_string_lossy().into_owned() };
-                    let verdict = path_spelling_one(&dir, &b.case.schema_text, &b.case.schema_ext, &b.case.document, relative, spelled);
-                    out.lock().unwrap()[k] = verdict.map(|v| format!("{}\u{1}{}", real_path, v));
+                    let fifo = st.chance(30);
+                    let verdict = path_spelling_one(&dir, &b.case.schema_text, &b.case.schema_ext, &b.case.document, relative, spelled, fifo);
+                    out.lock().unwrap()[k] = verdict.map(|v| format!("{}\u{1}{}{}", real_path, if fifo { "[the file is a named pipe] " } else { "" }, v));
                 });
             }
         });
@@ -419,11 +454,16 @@ fn path_spelling_campaign(report: &mut Report, n: usize) {
     for ((_, tp, b), r) in cases.iter().zip(results) {
         report.evaluations += 1;
         report.feature("query:path-with-dot-segments");
+        let mut st = Tape::new(&tp[tp.len() / 2..]);
+        let (_, _) = (st.chance(50), st.below(3));
+        if st.chance(30) {
+            report.feature("query:named-pipe");
+        }
         report.nontrivial.insert(fnv_str(&[&b.case.schema_text, &b.case.document, "dots"]));
         if let Some(r) = r {
             let (path, what) = r.split_once('\u{1}').unwrap_or(("", &r));
             let summary = format!("file-based generation after a decoy file in the same process [{}]: {}", path, what);
-            let replay = json!({"engine": "e2", "tape_hex": crate::tape::hex(tp), "mode": "path-spelling", "schema": b.case.schema_text, "schema_ext": b.case.schema_ext, "document": b.case.document, "spelled": path, "relative": !path.starts_with('/'), "observed": what});
+            let replay = json!({"engine": "e2", "tape_hex": crate::tape::hex(tp), "mode": "path-spelling", "schema": b.case.schema_text, "schema_ext": b.case.schema_ext, "document": b.case.document, "spelled": path, "relative": !path.starts_with('/'), "fifo": what.starts_with("[the file is a named pipe]"), "observed": what});
             report.failure(None, &format!("c05p:{}", crate::campaign::dedup_text(what)), &summary, || replay);
         }
     }
@@ -436,7 +476,7 @@ fn replay_selection(report: &mut Report, v: &Value) {
         let spelled_full = v["spelled"].as_str().unwrap_or("sub/../q.graphql");
         let spelled = ["sub/./../q.graphql", "./sub/../q.graphql", "sub/../q.graphql"].into_iter().find(|s| spelled_full.ends_with(s)).unwrap_or("sub/../q.graphql");
         report.evaluations += 1;
-        if let Some(what) = path_spelling_one(&dir, v["schema"].as_str().unwrap_or(""), v["schema_ext"].as_str().unwrap_or("graphql"), v["document"].as_str().unwrap_or(""), v["relative"].as_bool().unwrap_or(false), spelled) {
+        if let Some(what) = path_spelling_one(&dir, v["schema"].as_str().unwrap_or(""), v["schema_ext"].as_str().unwrap_or("graphql"), v["document"].as_str().unwrap_or(""), v["relative"].as_bool().unwrap_or(false), spelled, v["fifo"].as_bool().unwrap_or(false)) {
             report.violation("replay-path-spelling", &format!("replayed: {}", what), v.clone());
         }
         return;
@@ -476,7 +516,7 @@ fn replay_selection(report: &mut Report, v: &Value) {
 }
 
 pub fn run(report: &mut Report, replay: Option<&Value>) {
-    report.rule = "E1: documents with 1-3 operations and 0-4 fragments in random order with lexical trivia (CR/LF, commas, BOM, comments with non-ASCII text, string escapes); compiled modules must expose QUERY = the document bytes, OPERATION_NAME = the operation's name, a body with exactly variables/query/operationName, and accept their own operation's payload. E2: every (mode, name, normalization) selection scenario against parsed tokens (module list, OPERATION_NAME, QUERY, impl target; errors must name the available operations). Non-trivial: >= 2 operations, or the document contains non-ASCII / CR / escapes.".into();
+    report.rule = "E1: documents with 1-3 operations and 0-4 fragments in random order with lexical trivia (CR/LF, commas, BOM, comments with non-ASCII text, string escapes); compiled modules must expose QUERY = the document bytes, OPERATION_NAME = the operation's name, a body with exactly variables/query/operationName, and accept their own operation's payload. E2: every (mode, name, normalization) selection scenario against parsed tokens; file-based calls after a decoy file, through paths with dot segments, the file being a regular file or a named pipe fed by a thread (module list, OPERATION_NAME, QUERY, impl target; errors must name the available operations). Non-trivial: >= 2 operations, or the document contains non-ASCII / CR / escapes.".into();
     report.assumptions = vec!["rustc 1.95 + serde/serde_json + syn as installed are correct".into(), "graphql-parser 0.4.1 treats BOM, comma, CR as ignorable (third party, not under test)".into()];
     if let Some(v) = replay {
         if v["engine"] == "e2" {
